@@ -192,6 +192,12 @@ def gen_case(seed, idx):
         cond=rng.bool(), then=rng.choose(ops), **{"else": rng.choose(ops)}, nested=(kind == "if_nested"),
         trip=rng.choose([0, 1, 3]), stop_at=rng.choose([None, None, 0, 1]), op=rng.choose(ops), scan=rng.bool(),
     )
+    if rng.chance(1, 4):
+        # Structurally identical branches holding different local weights (node ids
+        # then coincide between the two branch graphs).
+        same = rng.choose(["matmul_local_weight", "matmul_local_weight", "local_const_scale"])
+        spec["then"] = same
+        spec["else"] = same
     if spec["trip"] == 0:
         # The shape of a scan output after zero iterations is not defined by the
         # loop body's execution; rten reports an error for it. Not generated.
